@@ -105,8 +105,11 @@ func strLit(e ast.Expr) (string, bool) {
 }
 
 // value specs (const/var) anywhere in the file, including inside functions
-func findValue(f *ast.File, name string) ast.Expr {
+func findValueIn(f *ast.File, name string) ast.Expr {
 	var found ast.Expr
+	if f == nil || f.Name == nil {
+		return nil
+	}
 	ast.Inspect(f, func(n ast.Node) bool {
 		switch v := n.(type) {
 		case *ast.ValueSpec:
@@ -179,8 +182,11 @@ func intsLit(e ast.Expr) ([]int64, bool) {
 }
 
 // all string literals returned (directly or through []byte("...")) by a function, in source order
-func returnedStrings(f *ast.File, fn string) []string {
+func returnedStringsIn(f *ast.File, fn string) []string {
 	out := []string{}
+	if f == nil {
+		return out
+	}
 	for _, d := range f.Decls {
 		fd, ok := d.(*ast.FuncDecl)
 		if !ok || fd.Name.Name != fn || fd.Body == nil {
@@ -206,16 +212,60 @@ func returnedStrings(f *ast.File, fn string) []string {
 	return out
 }
 
+// the other non-test Go files of the directory of rel (a declaration may have moved to a sibling file)
+func siblingFiles(repo, rel string) []*ast.File {
+	dir := filepath.Dir(filepath.Join(repo, rel))
+	out := []*ast.File{}
+	ents, _ := os.ReadDir(dir)
+	for _, e := range ents {
+		n := e.Name()
+		if e.IsDir() || !strings.HasSuffix(n, ".go") || strings.HasSuffix(n, "_test.go") || n == filepath.Base(rel) {
+			continue
+		}
+		if f := parseFile(filepath.Join(dir, n)); f != nil {
+			out = append(out, f)
+		}
+	}
+	return out
+}
+
 func cmdParams(args []string) {
 	repo := "/repo"
 	if len(args) > 0 {
 		repo = args[0]
 	}
 	p := &paramOut{}
+	curRel := ""
+	// findValue / returnedStrings in the named file, then in its siblings of the same package
+	findValue := func(f *ast.File, name string) ast.Expr {
+		if e := findValueIn(f, name); e != nil {
+			return e
+		}
+		for _, g := range siblingFiles(repo, curRel) {
+			if e := findValueIn(g, name); e != nil {
+				return e
+			}
+		}
+		return nil
+	}
+	returnedStrings := func(f *ast.File, fn string) []string {
+		if ss := returnedStringsIn(f, fn); len(ss) > 0 {
+			return ss
+		}
+		for _, g := range siblingFiles(repo, curRel) {
+			if ss := returnedStringsIn(g, fn); len(ss) > 0 {
+				return ss
+			}
+		}
+		return nil
+	}
 	file := func(rel string) *ast.File {
+		curRel = rel
 		f := parseFile(filepath.Join(repo, rel))
 		if f == nil {
-			p.errs = append(p.errs, "cannot parse "+rel)
+			// the file was renamed or split up: look the declarations up in the rest of its package
+			p.notes = append(p.notes, rel+" not found; declarations looked up in the other files of its directory")
+			f = &ast.File{}
 		}
 		return f
 	}
